@@ -33,6 +33,9 @@ CLAIM = {
 }
 
 
+# rules of sibling properties that decide code on this property's own call path: reorder re-expresses keys and descriptors through remapper_a / map_desc (C06)
+PREMISES = [("C06", ["R06.2", "R06.4"])]
+
 def run(F, R, tier):
     with open(SPEC) as f:
         spec = json.load(f)
